@@ -25,8 +25,11 @@
 //   nstyle fc: odd accesses gen() future, even co_await gen.next();   cf: the other way round
 //
 // Values: source s yields 100*s + j.  Access i passes 100+i.  Operation k completes with k.
+// Failures: a step of the "throw" family lets an exception of the step's kind out of the source (aggregator_exc.h);
+// an exception the consumer gets is attributed to a source by the identity of the exception object and reported with
+// its observed dynamic type ("k").
 //
-// projection (keys sorted): {"alive","ast","cscript":[...],"obs":[{"r","s","v"}],"queue":[s...],
+// projection (keys sorted): {"alive","ast","cscript":[...],"obs":[{"k","r","s","v"}],"queue":[s...],
 //   "sgot":{s:[{"j","v"}]},"sloc":{s:{"ctor","dtor"}},"spar":{s:n},"sscr":{s:[...]},"sseq":{s:n},"sst":{s:..},"waiter"}
 // `_count` lives in the aggregate's coroutine frame and has no address reachable from outside; it is bound
 // through behaviour (end / hang / drain) and through the queue content.
@@ -36,6 +39,7 @@
 #include <cocls/future.h>
 #include <cocls_verif/vsched.h>
 #include "replay_common.h"
+#include "aggregator_exc.h"
 
 #include <malloc.h>
 #include <optional>
@@ -62,7 +66,7 @@ void operator delete[](void *p) noexcept { operator delete(p); }
 void operator delete(void *p, std::size_t) noexcept { operator delete(p); }
 void operator delete[](void *p, std::size_t) noexcept { operator delete(p); }
 
-struct SrcExc : std::exception { int s; explicit SrcExc(int s_) : s(s_) {} };
+using agx::SrcExc;
 
 // ---------------------------------------------------------------------------------------------
 // access to private / protected state
@@ -96,7 +100,7 @@ template <typename G> struct CbProbe : AggTypes<G>::Cb {
 };
 
 // ---------------------------------------------------------------------------------------------
-struct Obs { std::string r = "pending"; int s = 0; int v = 0; };
+struct Obs { std::string r = "pending"; int s = 0; int v = 0; std::string k = "none"; };
 struct Got { int j; int v; };
 enum Kind { K_B, K_N, K_DESTROY, K_RESOLVE, K_QUIT };
 struct Cmd { Kind kind = K_QUIT; int idx = 0; };
@@ -131,6 +135,7 @@ struct SrcState {
     int ctor = 0, dtor = 0, par = 0;
     std::vector<Got> got;
     void *cb = nullptr;     // its GenCallback, learned on first activation
+    std::exception_ptr ep;  // the exception that left its body
 };
 
 // ---------------------------------------------------------------------------------------------
@@ -175,9 +180,12 @@ G source_fn(World<G> *w, int s, Param) {
             int r = co_await f;
             me.st = "run";
             if (r != k) w->error = "await returned a wrong value";
-        } else if (kind == "throw") {
+        } else if (agx::is_throw(kind)) {
             me.st = "exc";
-            throw SrcExc(s);
+            try { agx::raise(kind, s); }
+            catch (...) { me.ep = std::current_exception(); throw; }
+            w->error = "unknown source step " + kind;
+            co_return;
         } else if (kind == "return") {
             me.st = "done";
             co_return;
@@ -240,17 +248,30 @@ struct World {
 
     // ---- what the consumer sees -------------------------------------------------------------
     void set_val(Obs &o, int v) { o.r = "val"; o.s = v / 100; o.v = v % 100; }
+    static void nomore(Obs &o) { o.r = "end"; o.s = 0; o.v = 0; }   // no_more_values_exception: the sequence is over
+    // To be called in a catch handler: what an access of the aggregate threw at the consumer.  The exception object that
+    // left a source is that source's failure, reported with its observed type; anything else is the library's own
+    // signalling: `ends` tells which of the library's types mean "the sequence is over" in the access style at hand.
+    enum { E_NOMORE = 1, E_CANCEL = 2 };
+    void caught(Obs &o, unsigned ends = 0) {
+        std::exception_ptr ep = std::current_exception();
+        if (int s = agx::source_of(src, ep)) { o.r = "exc"; o.s = s; o.v = 0; o.k = agx::kind_of(ep); return; }
+        try { throw; }
+        catch (const SrcExc &e) { o.r = "exc"; o.s = e.s; o.v = 0; o.k = "user"; }     // (a copy of it)
+        catch (const cocls::no_more_values_exception &) { if (ends & E_NOMORE) nomore(o); else o.r = "other_exception"; }
+        catch (const cocls::await_canceled_exception &) { if (ends & E_CANCEL) nomore(o); else o.r = "other_exception"; }
+        catch (const cocls::value_not_ready_exception &) { o.r = "notready"; }
+        catch (...) { o.r = "other_exception"; }
+    }
     void observe_next(Obs &o, bool b) {
         if (b) {
             try { set_val(o, gen->value()); }
-            catch (const SrcExc &e) { o.r = "exc"; o.s = e.s; o.v = 0; }
-            catch (const cocls::value_not_ready_exception &) { o.r = "notready"; }
-            catch (...) { o.r = "other_exception"; }
+            catch (...) { caught(o); }
         } else {
             o.r = "end"; o.s = 0; o.v = 0;
             try { (void) gen->value(); o.r = "end_with_value"; }
-            catch (const SrcExc &) { o.r = "end_with_exception"; }
-            catch (const cocls::value_not_ready_exception &) {}
+            catch (const cocls::value_not_ready_exception &) { if (agx::source_of(src, std::current_exception())) o.r = "end_with_exception"; }
+            catch (...) { o.r = "end_with_exception"; }
         }
     }
     void observe_future(Obs &o, cocls::future<int> &f, int i) {
@@ -258,10 +279,8 @@ struct World {
         bool hv = f.has_value();
         if (!hv) { o.r = "end"; o.s = 0; o.v = 0; return; }
         try { set_val(o, (i & 1) ? *f : f.value()); }
-        catch (const SrcExc &e) { o.r = "exc"; o.s = e.s; o.v = 0; }
-        catch (...) { o.r = "other_exception"; }
+        catch (...) { caught(o); }
     }
-    static void nomore(Obs &o) { o.r = "end"; o.s = 0; o.v = 0; }   // no_more_values_exception: the sequence is over
 
     auto next_(int i) {
         if constexpr (WithArg) return gen->next(args[i]);
@@ -280,8 +299,7 @@ struct World {
             bool b = a;
             if (nb == b) { o.r = "bool_inconsistent"; return; }
             observe_next(o, b);
-        } catch (const cocls::no_more_values_exception &) { nomore(o); }
-        catch (...) { o.r = "other_exception"; }
+        } catch (...) { caught(o, E_NOMORE); }
     }
     void iter_access(int i) {
         if constexpr (!WithArg) {
@@ -293,11 +311,9 @@ struct World {
                 it = b ? "true" : "false";
                 if (b) {
                     try { set_val(o, **iter); }
-                    catch (const SrcExc &e) { o.r = "exc"; o.s = e.s; o.v = 0; }
-                    catch (...) { o.r = "other_exception"; }
+                    catch (...) { caught(o); }
                 } else observe_next(o, false);
-            } catch (const cocls::no_more_values_exception &) { nomore(o); }
-            catch (...) { o.r = "other_exception"; }
+            } catch (...) { caught(o, E_NOMORE); }
         }
     }
     void blocking_access(int i) {
@@ -310,8 +326,7 @@ struct World {
         try {
             futs[i].reset(new cocls::future<int>(call_(i)));
             if (ct >= 0 && (i % 3) != 0) futs[i]->sync();     // own thread: wait for it like *gen() / gen().wait() do
-        } catch (const cocls::no_more_values_exception &) { nomore(o); futs.erase(i); }
-        catch (...) { o.r = "other_exception"; futs.erase(i); }
+        } catch (...) { caught(o, E_NOMORE); futs.erase(i); }
     }
     void poll_futures() {
         for (auto &kv : futs) {
@@ -403,7 +418,7 @@ struct World {
         m.set("ast", ast);
         m.set("cscript", J::list(cdone.begin(), cdone.end()));
         J ol = J::list();
-        for (auto &o : obs) { J e = J::map(); e.set("r", o.r); e.set("s", o.s); e.set("v", o.v); ol.push(e); }
+        for (auto &o : obs) { J e = J::map(); e.set("k", o.k); e.set("r", o.r); e.set("s", o.s); e.set("v", o.v); ol.push(e); }
         m.set("obs", ol);
         J ql = J::list();
         std::string waiter = "none";
@@ -553,10 +568,8 @@ cocls::async<void> co_access(World<G> &w, int i) {
         if constexpr (World<G>::WithArg) b = co_await w.gen->next(w.args[i]);
         else b = co_await w.gen->next();
         w.observe_next(w.obs[i - 1], b);
-    } catch (const cocls::no_more_values_exception &) {
-        World<G>::nomore(w.obs[i - 1]);
     } catch (...) {
-        w.obs[i - 1].r = "other_exception";
+        w.caught(w.obs[i - 1], World<G>::E_NOMORE);
     }
     w.helpers_finished++;
 }
@@ -579,7 +592,7 @@ cocls::async<void> consumer(World<G> &w) {
                         if constexpr (WithArg) b = co_await w.gen->next(w.args[i]);
                         else b = co_await w.gen->next();
                         w.observe_next(w.obs[i - 1], b);
-                    } catch (const cocls::no_more_values_exception &) { World<G>::nomore(w.obs[i - 1]); }
+                    } catch (...) { w.caught(w.obs[i - 1], World<G>::E_NOMORE); }
                 } else if (i % 3 == 0) {
                     w.future_access(i);          // kept, not awaited
                 } else {
@@ -591,14 +604,13 @@ cocls::async<void> consumer(World<G> &w) {
                             if (!hv) { o.r = "end"; o.s = 0; o.v = 0; }
                             else {
                                 try { w.set_val(o, *f); }
-                                catch (const SrcExc &e) { o.r = "exc"; o.s = e.s; o.v = 0; }
+                                catch (...) { w.caught(o); }
                             }
                         } else {
                             try { int v = co_await f; w.set_val(o, v); }
-                            catch (const SrcExc &e) { o.r = "exc"; o.s = e.s; o.v = 0; }
-                            catch (const cocls::await_canceled_exception &) { o.r = "end"; o.s = 0; o.v = 0; }
+                            catch (...) { w.caught(o, World<G>::E_CANCEL); }
                         }
-                    } catch (const cocls::no_more_values_exception &) { World<G>::nomore(o); }
+                    } catch (...) { w.caught(o, World<G>::E_NOMORE); }
                 }
             } break;
             default: break;
